@@ -28,6 +28,9 @@ DEFAULT_FS = os.environ.get('VERIF_FS', '512')
 # reachable check: ~50 s of pure output per harness.  They only serve the UNREACHABLE annotation; vacuity is guarded
 # by kani::cover! witnesses instead.  VERIF_REACH=1 turns them back on.
 REACH = [] if os.environ.get('VERIF_REACH') == '1' else ['--no-assertion-reach-checks']
+REPLAY_MAX = int(os.environ.get('VERIF_REPLAY_MAX', '2'))
+ALT_OK = os.environ.get('VERIF_REPO', '/repo') != '/repo'
+NO_REPLAY = os.environ.get('VERIF_NO_REPLAY') == '1' and ALT_OK
 # Runs against another tree (seeded changes, pre-fix trees) never touch /verif/evidence, /verif/replays or the
 # log directory of the registered checks: everything goes under logs/alt-<tag>/.
 ALT = os.environ.get('VERIF_TAG') or (None if REPO == '/repo' else re.sub(r'[^A-Za-z0-9]+', '_', REPO).strip('_'))
@@ -560,6 +563,7 @@ def run_check(prop, tier, seed, only=None, write_evidence=True):
     verdicts = {}
     results = {}
     violations = []
+    skipped_replays = []
     known_hits = []
     inconclusive = []
     group_cmds = []
@@ -610,7 +614,16 @@ def run_check(prop, tier, seed, only=None, write_evidence=True):
                     new.append(c)
             if not new:
                 continue
-            # replay before reporting
+            # replay before reporting (at most REPLAY_MAX harnesses are replayed natively: once a violation has been
+            # confirmed the verdict of the run is settled; the others are listed without replay)
+            if len(violations) >= REPLAY_MAX:
+                skipped_replays.append((h, new))
+                continue
+            if NO_REPLAY:
+                # detection sweeps over seeded trees only (vlib/seed_matrix.sh): the solver's verdict is recorded without the
+                # native replay; never used by the registered commands
+                violations.append((h, new, '(not replayed: VERIF_NO_REPLAY)/%s.rs' % h.name, {'mode': 'skipped'}))
+                continue
             rep_dir = os.path.join(VERIF, 'replays', prop) if not ALT else os.path.join(logdir, 'replays')
             os.makedirs(rep_dir, exist_ok=True)
             rep_path = os.path.join(rep_dir, h.name + '.rs')
@@ -652,6 +665,8 @@ def run_check(prop, tier, seed, only=None, write_evidence=True):
         for c in new:
             log('  violated: %s: %s' % (h.name, check_key(c)))
         print('VIOLATION property=%s replay=%s' % (prop, rep_path))
+    for (h, new) in skipped_replays:
+        print('ALSO-FAILING property=%s harness=%s (not replayed: %d violation(s) already confirmed) %s' % (prop, h.name, len(violations), '; '.join(check_key(c) for c in new)[:300]))
     for (h, notes) in inconclusive:
         print('INCONCLUSIVE property=%s harness=%s %s' % (prop, h.name if h else '-', '; '.join(notes)))
     if write_evidence:
@@ -714,7 +729,8 @@ def write_ev(prop, tier, seed, sel, results, verdicts, known_hits, violations, i
             'rule': 'one evaluation = one CBMC verification condition (harness assertion, cover witness, or Kani default check: '
                     'panic/unwrap/index/overflow/pointer/unwinding) decided by the SAT solver over all values of the symbolic inputs '
                     'inside the stated bounds; distinct_nontrivial counts distinct (function, description, source line) conditions whose '
-                    'verdict needed the solver (status Success/Satisfied/Failure; conditions CBMC found unreachable are excluded)',
+                    'verdict needed the solver (status Success/Satisfied/Failure). Kani\'s assertion-reachability instrumentation is off (DESIGN.md 10.1): vacuity is '
+                    'guarded by the kani::cover! witnesses, every one of which must come back SATISFIED, and by canary obligations that must FAIL',
             'samples': samples,
             'obligations': obligations,
             'discharged': discharged,
